@@ -14,7 +14,7 @@ R_FUNCTIONS = [
 R_ASSUMPTIONS = [
     "real arithmetic (IEEE rounding, overflow, NaN/inf are outside this engine)",
     "nalgebra's SVD is replaced by a planted exact factorisation U*diag(sigma)*V^T for M >= 2 (contract stub; the matrix handed to svd is proved equal to the planted product); for M = 1 the real SVD runs symbolically",
-    "planted frames U, V are exact rational orthogonal matrices (products of Householder reflections chosen by VERIF_SEED); sigma, weights, observations, derivative matrices, epsilon are universally quantified",
+    "planted frames U, V are exact rational orthogonal matrices (products of Householder reflections chosen by VERIF_SEED) and, for N <= 3, M <= 2, rationally parametrised rotations with SYMBOLIC parameters (all rotations); sigma, weights, observations, derivative matrices, epsilon are universally quantified",
     "weights non-zero in the planted tier (the basis matrix is defined as W^-1 * planted product); zero weights are covered in the real-svd tier",
     "divisors are proved non-zero on every explored path before they are assumed non-zero",
     "shapes bounded as listed in `configs`; larger shapes are outside the claim",
